@@ -17,16 +17,25 @@ def step (args : List String) : String :=
     match nats? [aL, aS, nL, l, e, sbn] with
     | some [aL, aS, nL, l, e, sbn] => showRs toString (blockLength aL aS nL l e sbn)
     | _ => "bad-op"
-  | ["sb", b, l, e] =>
-    match nats? [b, l, e] with
-    | some [b, l, e] =>
-      match blockPartitioning b l e with
-      | .error _ => "PANIC"
-      | .ok q =>
-        if l = 0 then "ok" else
-        let bl := senderBlocks q l e (l + 1) 0 0
-        "ok" ++ String.join (bl.map fun (k, s, en) => s!" {k}:{en - s}")
-    | _ => "bad-op"
+  | [rqp, b, l, e] =>
+    if rqp = "rq" ∨ rqp = "rp" then
+      match nats? [b, l, e] with
+      | some [b, l, e] =>
+        match blockPartitioning b l e with
+        | .error _ => "PANIC"
+        | .ok (_, _, _, n) => s!"ok {reconstructB l e n} {n}"
+      | _ => "bad-op"
+    else if rqp = "snd" then
+      match nats? [b, l, e] with
+      | some [b, l, e] =>
+        match blockPartitioning b l e with
+        | .error _ => "PANIC"
+        | .ok q =>
+          if l = 0 then "ok" else
+          let bl := senderBlocks q l e (l + 1) 0 0
+          "ok" ++ String.join (bl.map fun (k, s, en) => s!" {k}:{en - s}")
+      | _ => "bad-op"
+    else "bad-op"
   | _ => "bad-op"
 
 end Flute.Drv.Part
